@@ -16,6 +16,7 @@ from gnpy.core.parameters import SimParams
 from gnpy.tools.json_io import results_to_json
 from gnpy.tools.worker_utils import planning
 from gnpy.topology.request import jsontocsv
+import gnpy.topology.request as RQ
 
 from vf.gen import common as G, services as S
 from vf.props import _prop_common as P
@@ -31,7 +32,7 @@ ASSUMPTIONS = ['the order of the ids inside a joined (aggregated) id is not judg
                'same rounding to two decimals']
 REQUIRED_COUNTERS = {'responses_checked': 150, 'served': 50, 'blocked': 30, 'bidirectional': 15, 'aggregated': 5,
                      'csv_rows_checked': 150, 'blocking_reasons_seen': 4,
-                     'csv_pass_threshold_checks': 5}
+                     'csv_pass_threshold_checks': 5, 'reported_vs_event_checks': 100}
 CASE_TIMEOUT = {'quick': 300, 'thorough': 600}
 NOPATH = ('NO_PATH', 'NO_PATH_WITH_CONSTRAINT', 'NO_FEASIBLE_BAUDRATE_WITH_SPACING', 'NO_COMPUTED_SNR')
 
@@ -155,6 +156,36 @@ def expected_metrics(rx, rq):
             'lowest_SNR-0.1nm': r2(np.min(rx.snr_01nm)), 'biggest_SNR-0.1nm': r2(np.max(rx.snr_01nm)),
             'PDL_penalty': pen('pdl'), 'CD_penalty': pen('chromatic_dispersion'), 'PMD_penalty': pen('pmd'),
             'reference_power': rq.power, 'path_bandwidth': rq.path_bandwidth}
+
+
+RECEIVER_KEYS = ('SNR-bandwidth', 'SNR-0.1nm', 'OSNR-bandwidth', 'OSNR-0.1nm', 'lowest_SNR-0.1nm', 'biggest_SNR-0.1nm',
+                 'PDL_penalty', 'CD_penalty', 'PMD_penalty')
+
+
+def check_against_events(ctx, doc, rqs, events):
+    """The figures reported for a request are those its own last propagation ended with (per direction), whatever
+    was propagated afterwards for other requests of the batch."""
+    last = {}
+    for rid, a, z, m in events:
+        last[(rid, a, z)] = m
+    for entry, rq in zip(doc['response'], rqs):
+        props = entry.get('path-properties') or entry.get('no-path', {}).get('path-properties')
+        if not props:
+            continue
+        for key, a, z in (('path-metric', rq.source, rq.destination), ('z-a-path-metric', rq.destination, rq.source)):
+            if key not in props:
+                continue
+            ev = last.get((rq.request_id, a, z))
+            ctx.count('reported_vs_event_checks')
+            if ev is None:
+                ctx.violation('metrics-without-propagation', f'response {rq.request_id}: {key} reported but no '
+                              f'propagation {a} -> {z} was observed for this request')
+                continue
+            got = {e['metric-type']: e['accumulative-value'] for e in props[key]}
+            diff = {k: (got.get(k), ev[k]) for k in RECEIVER_KEYS if got.get(k) != ev[k]}
+            if diff:
+                ctx.violation('metrics-not-own-propagation', f'response {rq.request_id}: {key} ({a} -> {z}) differs '
+                              f'from the figures its own propagation ended with (reported, observed): {diff}')
 
 
 def check_entry(ctx, entry, rq, path, rpath, group):
@@ -323,8 +354,31 @@ def run_case(case, ctx):
     data = {'path-request': reqs}
     ctx.dump.update({'topology': tj, 'services': data})
     groups = expected_groups(reqs)
-    oms_list, prop, rprop, rqs, dsjn, result = planning(network, equipment, deepcopy(data))
+    # event log: the receiver figures at the moment each propagation of the batch ends (copied values, not objects)
+    events = []
+    orig_p, orig_o = RQ.propagate, RQ.propagate_and_optimize_mode
+
+    def rec(path, req):
+        m = expected_metrics(path[-1], req)
+        events.append((req.request_id, path[0].uid, path[-1].uid, {k: m[k] for k in RECEIVER_KEYS}))
+
+    def wp(path, req, equipment):
+        r = orig_p(path, req, equipment)
+        rec(path, req)
+        return r
+
+    def wo(path, req, equipment):
+        pth, mode = orig_o(path, req, equipment)
+        if pth and pth[-1].snr is not None:
+            rec(pth, req)
+        return pth, mode
+    RQ.propagate, RQ.propagate_and_optimize_mode = wp, wo
+    try:
+        oms_list, prop, rprop, rqs, dsjn, result = planning(network, equipment, deepcopy(data))
+    finally:
+        RQ.propagate, RQ.propagate_and_optimize_mode = orig_p, orig_o
     doc = results_to_json(result)
+    check_against_events(ctx, doc, rqs, events)
     margin = ej['SI'][0]['sys_margins']
     # one entry per (aggregated) request
     got_ids = [e['response-id'] for e in doc['response']]
